@@ -2,6 +2,7 @@
 # usage: tools/try_seed.sh <PROP> <patch.diff> [quick|thorough]  - applies a seeded change to /repo, runs the check, restores /repo
 P=$1; F=$2; T=${3:-quick}
 cd /verif
+if [ -n "$(git -C /repo status --porcelain)" ]; then echo "REFUSED: /repo has uncommitted changes (commit them first; this script restores the working tree)"; exit 4; fi
 if ! git -C /repo apply "$F"; then echo "PATCH-DOES-NOT-APPLY $F"; exit 3; fi
 trap 'git -C /repo checkout -- . ; git -C /repo clean -fdq' EXIT
 ./check "$P" "$T" 2>&1 | grep -E "^(VIOLATION|KNOWN-FINDING|ENGINE-ERROR|C[0-9]+:)|SELFTEST-FAIL" | cut -c1-400
